@@ -64,3 +64,29 @@ def extract_patterns_from_content(content: str) -> list[str]:
     """
     lines = [line.strip() for line in content.splitlines()]
     return [line for line in lines if line and not line.startswith("#")]
+
+
+def matches_ignore_pattern(path: str, pattern: str) -> bool:
+    """Check a file path against a per-linter ``ignore`` pattern.
+
+    Implements the documented forms: exact path, ``*`` wildcards, ``**/name``,
+    ``dir/**`` (all files in a directory tree) and plain substrings.
+
+    Args:
+        path: File path (relative to the project root when known)
+        pattern: Ignore pattern from a linter's ``ignore`` list
+
+    Returns:
+        True if the path matches the pattern
+    """
+    path_obj = Path(path)
+    if path_obj.match(pattern):
+        return True
+    if pattern.endswith("/**"):
+        dir_parts = tuple(part for part in Path(pattern[:-3]).parts if part != "**")
+        parts = path_obj.parts[:-1]
+        width = len(dir_parts)
+        if width and any(parts[i : i + width] == dir_parts for i in range(len(parts) - width + 1)):
+            return True
+    return pattern in str(path_obj)
+
